@@ -36,10 +36,43 @@ def _run(run, sessions, label, module, cfg, describe, race=False):
     faults = run_driver(run, binary, sp, tp)
     ns, nev, rejected = validate_traces(run, module, cfg, tp)
     run.log("%s: %d sessions, %d events validated, %d rejected, %d driver faults" % (label, ns, nev, len(rejected), len(faults)))
+    examined = 0
+    confirmed = False
     for sid, evs, idx in rejected:
         sess = by_id.get(sid) or by_id.get(sid // 100)     # a pool session is split into one sub-session per request
-        if any(e.get("ev") == "timeout" for e in evs):
-            raise Infra("session %s hit the driver watchdog (not a verdict): %s" % (sid, json.dumps(sess)[:400]))
+        if any(e.get("ev") == "timeout" for e in evs) and (idx is None or evs[idx].get("ev") == "timeout"):
+            # a watchdog timeout counts only if the session hangs again, alone, with ten times the budget (twice);
+            # otherwise the session is judged by its isolated re-run
+            if confirmed or examined >= 3:
+                continue
+            examined += 1
+            n_to, good = 0, []
+            for k in range(2):
+                rs = os.path.join(run.scratch, "sessions-%s-repro%d.ndjson" % (label, k))
+                rt = os.path.join(run.scratch, "traces-%s-repro%d.ndjson" % (label, k))
+                for p in (rs, rt):
+                    if os.path.exists(p):
+                        os.remove(p)
+                write_ndjson(rs, [sess])
+                run_driver(run, binary, rs, rt, nshards=1, extra=("-calltimeout", "200s"), timeout=3600)
+                if any(e.get("ev") == "timeout" for e in read_ndjson(rt)):
+                    n_to += 1
+                else:
+                    good.append(rt)
+            if n_to >= 2:
+                confirmed = True
+                key, what = describe(sess, evs, idx)
+                run.violation(key + ":hang", {"session": sess, "trace": evs, "spec": module},
+                              what + " (never completes: hung again twice, alone, with ten times the budget)")
+                continue
+            if not good:
+                raise Infra("session %s hit the driver watchdog and no isolated re-run completed (not a verdict)" % sid)
+            _, _, rej2 = validate_traces(run, module, cfg, good[0], chunks=1)
+            run.log("session %s: watchdog timeout not reproduced; its isolated re-run was %s" % (sid, "rejected" if rej2 else "accepted"))
+            for sid2, e2, i2 in rej2:
+                key, what = describe(sess, e2, i2)
+                run.violation(key, {"session": sess, "trace": e2, "rejected_event_index": i2, "spec": module}, what)
+            continue
         key, what = describe(sess, evs, idx)
         run.violation(key, {"session": sess, "trace": evs, "rejected_event_index": idx, "spec": module}, what)
     if not run.samples:
